@@ -115,12 +115,14 @@ fn tamper(cx: &mut Cx, verifier: NodeId, key: Arc<KeyMat>, p: Presentation) {
     let last_is_revealed_zero = !p.hidden.contains(&(n - 1)) && p.revealed.last().map(|x| *x == 0).unwrap_or(false);
     if n > 1 && !last_is_revealed_zero { let mut q = p.clone(); q.n = n - 1; deliver(cx, verifier, q, "n:-1".into(), false); }
     if n < MAX_ATTR { let mut q = p.clone(); q.n = n + 1; q.bases = key.bases.0[..n + 1].to_vec(); deliver(cx, verifier, q, "n:+1".into(), false); }
+    { let mut q = p.clone(); q.n = n + 1; deliver(cx, verifier, q, "n:+1_with_n_bases".into(), false); }
+    { let mut q = p.clone(); q.n = n + 7; deliver(cx, verifier, q, "n:+7_with_n_bases".into(), false); }
     // every integer leaf of the serialized proof, a slice per run
     let v = parse(&p.proof_json);
     let ls = leaves(&v);
     let per = if cx.thorough { 30 } else { 10 };
     let nsl = (ls.len() as u64 + per - 1) / per;
-    let slice = cx.ch.forced("leaf_slice", nsl.max(1), cx.run_index / 62);
+    let slice = cx.ch.forced("leaf_slice", nsl.max(1), cx.run_index);
     cx.add("n.proof_leaves", ls.len() as u64);
     for k in (slice * per) as usize..(((slice + 1) * per) as usize).min(ls.len()) {
         let ps = perturbations(&ls, k);
